@@ -145,6 +145,28 @@ def feature_case(src, mexe, masks, base, word, mask, name, neg):
     return recipe, problems
 
 
+def none_case(src, mexe, base, word_):
+    """-O none / -O clear: every feature the filesystem has is to be cleared - the model reads it as one clear edit per set bit"""
+    img = os.path.join(WORK, "f_%s_%s.img" % (os.path.basename(base)[5:-4], word_))
+    shutil.copy(base, img)
+    before = open(img, "rb").read()
+    cur = feats(img)
+    env = e2v.tool_env(src)
+    edits = " ".join("-%d:%d" % (w, 1 << b) for w in range(3) for b in range(32) if cur[w] >> b & 1)
+    ans = ask(mexe, ["E %d %d %d | %s" % (cur[0], cur[1], cur[2], edits)])[0]
+    rc, out = e2v.sh([os.path.join(src, "misc/tune2fs"), "-O", word_, img], env=env, timeout=300, input=b"\n")
+    after = open(img, "rb").read()
+    recipe = {"base": os.path.basename(base), "option": "-O " + word_, "model": ans, "rc": rc}
+    problems = []
+    if ans == "REFUSED":
+        if rc == 0 and feats(img) != cur:
+            problems.append("tune2fs -O %s cleared features whose removal its own masks do not allow: %s -> %s" % (word_, cur, feats(img)))
+        elif after != before:
+            problems.append("refused edit modified the filesystem")
+    os.unlink(img)
+    return recipe, problems
+
+
 def sequence_case(src, idx, seed, tier):
     r = e2v.rng(seed, "c11seq", idx)
     name, opts, size = BASES[idx % len(BASES)]
@@ -331,6 +353,10 @@ def run(res, replay=None):
             res.sample(recipe)
         if problems:
             bad.append((recipe, problems))
+    for rcp, p in [none_case(src, mexe, b, w_) for b in bases for w_ in ("none", "clear")]:
+        res.case(json.dumps(rcp), True)
+        if p:
+            bad.append((rcp, p))
     for rcp, p in [lazy_itable_case(src, k) for k in range(3)]:
         res.case(json.dumps(rcp), True)
         if p:
